@@ -373,36 +373,38 @@ def has_lone_surrogate(s):
     return any(0xD800 <= ord(c) <= 0xDFFF and not (0xDC80 <= ord(c) <= 0xDCFF) for c in s)
 
 
+class _MissingStays(dict):
+    """the flat view a template is applied to: a name the record lacks stays `{name}`"""
+
+    def __missing__(self, key):
+        return "{" + key + "}"
+
+
 def expected_template(tpl, items):
-    """`tpl` applied to the record's fields, a name the record lacks stays `{name}`; returns (text | None, err)"""
+    """`tpl` applied to the record's fields by Python's own str.format_map (every replacement-field form: attribute and
+    index access, conversions, specs, fields nested in a spec, literal braces); returns (text | None, (kind, message))"""
+    view = _MissingStays({it[0]: it[4] for it in items})
+    try:
+        return tpl.format_map(view), None
+    except Exception as e:  # the template is not applicable to this record
+        msg = "%s: %s" % (type(e).__name__, e)
+        return None, ("none-spec" if isinstance(e, TypeError) and "NoneType.__format__" in str(e) else "template", msg)
+
+
+def in_model_grammar(tpl):
+    """is the template inside the grammar model/Csv.v parses (plain names, !r/!s/!a, specs without nested fields)?"""
     import string as S
-    d = {it[0]: it for it in items}
-    out = []
     try:
         parsed = list(S.Formatter().parse(tpl))
-    except ValueError as e:
-        return None, ("template", str(e))
+    except ValueError:
+        return False
     for lit, field, spec, conv in parsed:
-        out.append(lit)
         if field is None:
             continue
-        if field in d:
-            raise_none = d[field][4] is None
-            v = d[field][4]
-        else:
-            v = "{" + field + "}"
-            raise_none = False
-        if conv == "r":
-            v = repr(v)
-        elif conv == "s":
-            v = str(v)
-        elif conv == "a":
-            v = ascii(v)
-        try:
-            out.append(format(v, spec or ""))
-        except Exception as e:
-            return None, ("none-spec" if (raise_none and conv is None and spec) else "format", "%s: %s" % (type(e).__name__, e))
-    return "".join(out), None
+        if field == "" or field.isdigit() or any(c in field for c in ".[{}!:") or conv not in (None, "r", "s", "a") \
+                or any(c in (spec or "") for c in "{}"):
+            return False
+    return True
 
 
 # ------------------------------------------------------------------------------------------------
@@ -603,7 +605,8 @@ SPEC_BY_TYPE = {
 
 
 def gen_template(rnd, recs):
-    """a template inside the modelled grammar (plain names, !r !s !a, :spec without nesting)"""
+    """a template: mostly inside the modelled grammar (plain names, !r !s !a, :spec without nesting), and with the other
+    replacement-field forms of str.format mixed in"""
     fields = []
     for r in recs:
         allf = r._desc.get_all_fields()
@@ -631,6 +634,29 @@ def gen_template(rnd, recs):
         else:
             name = rnd.choice(["zz", "nosuch", "a b", "x-y", "9a", "_nope", "\u00e9"])
             parts.append(rnd.choice(["{%s}", "{%s}", "{%s!r}", "{%s:>8}", "{%s!s:^9}"]) % name)
+    if fields and rnd.random() < 0.45:
+        # forms outside the modelled grammar (checked against str.format_map itself): attribute / index access, a field
+        # nested in a spec, a field used only inside a spec, positional fields
+        by = {}
+        for k, t in fields:
+            by.setdefault(t, []).append(k)
+        forms = []
+        for t, attr in (("path", "name"), ("path", "parent"), ("uri", "scheme"), ("datetime", "year"), ("string", "real"),
+                        ("net.ipaddress", "val"), ("digest", "md5"), ("command", "executable")):
+            for k in by.get(t, []):
+                forms.append("{%s.%s}" % (k, attr))
+        for t in ("string[]", "varint[]", "stringlist", "path[]", "bytes[]", "uri[]"):
+            for k in by.get(t, []):
+                forms += ["{%s[0]}" % k, "{%s[0]!r:>12}" % k]
+        for k in by.get("dictlist", []):
+            forms.append("{%s[0][k]}" % k)
+        ints = by.get("uint16", []) + by.get("varint", [])
+        names = [k for k, _ in fields]
+        for w in ints[:2]:
+            forms += ["{%s:>{%s}}" % (rnd.choice(names), w), "{%s!s:{%s}}" % (rnd.choice(names), w)]
+        forms += ["{%s:>{nosuch}}" % rnd.choice(names), "{_version:>{_version}}", "{nosuch.attr}", "{%s[zz]}" % rnd.choice(names),
+                  "{}", "{0}", "{%s}{%s}" % (names[0], names[0])]
+        parts.insert(rnd.randint(0, len(parts)), rnd.choice(forms))
     return "".join(parts)
 
 
@@ -832,7 +858,7 @@ def run_sequence(ctx, rep, rnd, idx, script, workdir, cfgname="gen_cfg", collect
         else:
             wbytes, wcls = None, werr[0]
         if data is None:
-            if werr is not None and werr[0] in ("template", "format"):
+            if werr is not None and werr[0] == "template":
                 pass            # the user's template itself is not applicable to these field types: not a record failure
             else:
                 rep.fail(dict(writer="text", cls=wcls or "raises"), "TextWriter raised %s on a valid record (template %r)" % (err, tpl),
@@ -842,8 +868,9 @@ def run_sequence(ctx, rep, rnd, idx, script, workdir, cfgname="gen_cfg", collect
                      "TextWriter output is not %s: got %r, expected %r" % ("the template applied to the fields" if tpl else "repr(record)",
                                                                             data[:200], (wbytes or b"")[:200]),
                      dict(output=data.hex(), want=None if wbytes is None else wbytes.hex(), **meta))
-        pairs = clist("(%s,%s)" % (c_rec(ob), c_fmt_tbl(fmt_table_for(tpl, r, iv) if tpl else [])) for ob, r, iv in zip(obss, recs, ivs))
-        terms.append(("text", meta, "chk_text %s %s %s %s" % (cfgname, c_opts(o), pairs, cbytes(data))))
+        if not tpl or in_model_grammar(tpl):
+            pairs = clist("(%s,%s)" % (c_rec(ob), c_fmt_tbl(fmt_table_for(tpl, r, iv) if tpl else [])) for ob, r, iv in zip(obss, recs, ivs))
+            terms.append(("text", meta, "chk_text %s %s %s %s" % (cfgname, c_opts(o), pairs, cbytes(data))))
         ctx.count_case(("text", idx, variant, repr(o), [repr(x) for x in obss]))
     return [(k, m, "(let rs := %s in %s)" % (recs_term, t) if " rs " in t else t) for k, m, t in terms]
 
@@ -1320,6 +1347,22 @@ def witness_sequences():
     out.append((-(len(plans) + 1), col,
                 dict(csv=[{}, {"exclude": "_source,_classification,_generated,_version"}], line=[{"verbose": True}, {}],
                      text=[{}, {"format_spec": "{a}|{b}|{astringb}"}])))
+    # every replacement-field form of str.format on one record type
+    from flow.record.fieldtypes import path as _p
+    T = RecordDescriptor("wit/tpl", [("path", "location"), ("uri", "u"), ("datetime", "ts"), ("string[]", "tags"), ("dictlist", "dl"),
+                                     ("varint", "count"), ("varint", "width"), ("string", "s")])
+    t1 = T(location=_p.from_posix("/var/log/app.log"), u="https://host.example/x?q=1", ts=TS, tags=["red", "blue"],
+           dl=[{"k": "v1", "n": 2}], count=255, width=7, s="va\u00e9", _generated=TS)
+    t2 = T(location=_p.from_windows("C:\\Temp\\b.txt"), u="ftp://h/", ts=TS, tags=["only"], dl=[{"k": "v2"}], count=-3, width=4,
+           s='q"uote', _source="src", _generated=TS)
+    tpls = ["{location.name}|{u.scheme}|{ts.year}", "{tags[0]}|{dl[0][k]}|{tags[0]!r:>9}", "{count:>{width}}|{s:{width}}|{count:#x}",
+            "{s!r:>10}|{s!s:<8}|{s!a}", "{s}{s}{{{s}}}{{}}", "{zz:>{width}}|{s:>{nosuch}}", "{}", "{0}|{s}", "{tags[5]}", "{nosuch.attr}",
+            "{location.parent.name}/{location.suffix}"]
+    base = len(out)
+    for k in range(0, len(tpls), 2):
+        pair = tpls[k:k + 2] if len(tpls[k:k + 2]) == 2 else [tpls[k], "{s}"]
+        out.append((-(base + 1 + k // 2), [t1, t2],
+                    dict(csv=[{}, {}], line=[{}, {"verbose": True}], text=[{"format_spec": pair[0]}, {"format_spec": pair[1]}])))
     return out
 
 
